@@ -86,3 +86,46 @@ Section CachedBisect.
     then let r := ba_bisect_c fuel (o + 1) (ba_n axis - 1) (u - pl) c in ((fst r - o)%Z, snd r)
     else let r := ba_bisect_c fuel 0 (o - 1) u c in ((fst r - o)%Z, snd r).
 End CachedBisect.
+
+(* ---------- lru_cache of the n-d BinarySearchTreeAdapted._compute_probability ---------- *)
+From RV Require Import Base.Corr Model.BstAdaptedNd.
+
+Definition box_eqb (a b : box) : bool := list_eqb zpair_eqb a b.
+Definition ndcache := list (box * Q).          (* key: the box whose corner bounds (a, b) are the arguments *)
+
+Fixpoint ndcache_lookup (c : ndcache) (b : box) : option Q :=
+  match c with
+  | [] => None
+  | (b', v) :: r => if box_eqb b b' then Some v else ndcache_lookup r b
+  end.
+
+Section NdCached.
+  Variable bm : box -> Q.
+  Variable evict : ndcache -> ndcache.
+
+  Definition bm_cached (c : ndcache) (b : box) : Q * ndcache :=
+    match ndcache_lookup c b with
+    | Some v => (v, c)
+    | None => (bm b, evict ((b, bm b) :: c))
+    end.
+
+  Definition nd_axis_c (k : nat) (res : box) (cp : Q) (c : ndcache) : box * Q * ndcache :=
+    let lr := nth k res (0, 0)%Z in
+    if degenerate lr then (res, cp, c)
+    else
+      let mid := ((snd lr + fst lr) / 2)%Z in
+      let res1 := upd res k (fst lr, mid) in
+      let pc := bm_cached c res1 in
+      if Qltb (fst pc) cp then (upd res k (Z.min (snd lr) (mid + 1), snd lr), cp - fst pc, snd pc) else (res1, cp, snd pc).
+
+  Fixpoint nd_go_c (fuel : nat) (k : nat) (res : box) (cp : Q) (c : ndcache) : option box * ndcache :=
+    match fuel with
+    | O => (None, c)
+    | S f =>
+        if (k <? length res)%nat then let rc := nd_axis_c k res cp c in nd_go_c f (S k) (fst (fst rc)) (snd (fst rc)) (snd rc)
+        else if all_degenerate res then (Some res, c) else nd_go_c f 0 res cp c
+    end.
+
+  Definition sample_one_bucket_c (res : box) (c : ndcache) (cp : Q) : option (list Z) * ndcache :=
+    let r := nd_go_c (nd_fuel res) (length res) res cp c in (option_map (map fst) (fst r), snd r).
+End NdCached.
